@@ -634,15 +634,19 @@ func c19R5(c *Ctx) {
 		return
 	}
 	n := 0
-	allInstrs(mp, func(in ssa.Instruction) {
-		a, ok := in.(*ssa.Alloc)
-		if !ok || !isLangNamed(a.Type(), "StatementExpr") {
-			return
-		}
-		n++
-		g := guardsAt(p, mp, a.Block())
-		c.check(g["p.current.Tag != LCurly"], "R5", fmt.Sprintf("expression-body-wrapper #%d", n), p.InstrPos(a), "a body is wrapped as an expression only when it does not start with `{`", "a StatementExpr body is built although the body may start with `{`")
-	})
+	// (the parselet and the helpers split off it)
+	for _, f := range p.privateCluster(mp) {
+		f := f
+		allInstrs(f, func(in ssa.Instruction) {
+			a, ok := in.(*ssa.Alloc)
+			if !ok || !isLangNamed(a.Type(), "StatementExpr") {
+				return
+			}
+			n++
+			g := guardsAt(p, f, a.Block())
+			c.check(g["p.current.Tag != LCurly"], "R5", fmt.Sprintf("expression-body-wrapper #%d", n), p.InstrPos(a), "a body is wrapped as an expression only when it does not start with `{`", "a StatementExpr body is built although the body may start with `{`")
+		})
+	}
 	if n == 0 {
 		c.undecided("R5", "expression-body-wrapper", p.Pos(mp.Pos()), "the match parselet builds no StatementExpr")
 	}
